@@ -293,11 +293,19 @@ fn plan(property: &str, tier: &str) -> Vec<(&'static str, &'static str, usize)> 
         }
         "C04" => {
             if quick {
-                vec![("bytes", "rb_raw", 6), ("pco", "rb_dense", 6)]
+                vec![
+                    ("bytes", "rb_raw", 6),
+                    ("pco", "rb_dense", 6),
+                    // continuations from a state with two commits behind it
+                    ("pco", "rb_dense+pre_c2+c4", 5),
+                    ("bytes", "rb_raw+pre_c2+c4", 5),
+                ]
             } else {
                 vec![
                     ("bytes", "rb_raw+skip", 7),
                     ("pco", "rb_dense+skip", 7),
+                    ("pco", "rb_dense+pre_c2+c5", 7),
+                    ("bytes", "rb_raw+pre_c2+c5", 7),
                     ("zerocopy", "rb_raw", 6),
                     ("lz4", "rb_dense", 6),
                     ("zstd", "rb_dense", 6),
